@@ -7,13 +7,17 @@ import BufrModel.Drv.JsonUtil
 import BufrModel.Drv.State
 import BufrModel.Drv.BitsOp
 import BufrModel.Drv.PathOp
+import BufrModel.Drv.SectionsOp
 open Lean Bufr.Drv
 
 /-- stateless operations: one line per op (keep sorted by property to ease merging) -/
 def statelessOps : List (String × (Json → J Json)) := [
   ("bits", opBits),
   ("path", opPath),
-  ("path-enum", opPathEnum)
+  ("path-enum", opPathEnum),
+  ("msg-encode", opMsgEncode),
+  ("msg-decode", opMsgDecode),
+  ("mdquery", opMdQuery)
 ]
 
 /-- operations that read or change the driver state -/
